@@ -139,10 +139,15 @@ func (r *Reader) Read(buf []byte) (n int, err error) {
 func (r *Reader) decodeScanLine() {
 	if r.K < 0 {
 		r.decodeG4ScanLine()
-	} else if r.K == 0 {
-		r.decodeG3ScanLine1D()
 	} else {
-		r.decodeG3ScanLine2D()
+		if r.EncodedByteAlign {
+			r.alignToByte()
+		}
+		if r.K == 0 {
+			r.decodeG3ScanLine1D()
+		} else {
+			r.decodeG3ScanLine2D()
+		}
 	}
 
 	copy(r.refLine, r.line)
@@ -153,6 +158,10 @@ func (r *Reader) decodeG4ScanLine() {
 	// Group 4 fax uses pure 2D encoding for all lines
 	// with no EOL codes or line mode switching
 	r.decode2D()
+
+	if r.EncodedByteAlign {
+		r.alignToByte()
+	}
 
 	// Check for EOFB (End of Facsimile Block)
 	// EOFB in Group 4 is 24 bits: 000000000001000000000001
@@ -410,6 +419,13 @@ func (r *Reader) readBits(n int) uint32 {
 	res := r.peekBits(n)
 	r.consumeBits(n)
 	return res
+}
+
+// alignToByte discards the fill bits which pad an encoded line to a byte
+// boundary (EncodedByteAlign).  Input bytes are loaded whole, so the bits of
+// the current byte which have not been consumed yet are validBits modulo 8.
+func (r *Reader) alignToByte() {
+	r.consumeBits(r.validBits % 8)
 }
 
 // waitForOne consumes bits, one by one, until a 1 has been consumed.
